@@ -12,6 +12,10 @@ so they also cover effects inside loops):
        has not been told about yet
   C17  add_recent is only ever applied to a read-write selection, and a message is stored `recent` exactly when
        no selection took it
+  C04  the UID lists handed to AppendUid / CopyUid are the backend's answers in call order: AppendUid gets exactly the
+       uids of the messages append() returned, for the UIDVALIDITY of that mailbox; CopyUid gets exactly the pairs
+       (source uid handed to copy()/move(), uid it returned), sources and destinations both strictly increasing -- so
+       that CopyUid's independent sorting of the two columns keeps every pair together
   C11  KeyError / ValueError of the mailbox set are turned into MailboxNotFound / MailboxConflict (tagged NO)
        and nothing else escapes
 
@@ -39,6 +43,10 @@ CFG = RecS('Config')
 SESSION = RecS('BaseSession', pyclass=(F, 'BaseSession'), mailbox_set=MSET, config=CFG)
 AppendR = RefS('AppendMsg')
 SeqSetS = SELM.SeqSetS
+
+PairS = TupleS(INT, INT)
+_P0 = PairS._dt().accessor(0, 0)
+_P1 = PairS._dt().accessor(0, 1)
 
 SEL_MBX = VRef(z3.Const('the-selected-mailbox', MbxR.z3()), MbxR)
 
@@ -89,6 +97,8 @@ def ghost_init(st, sc):
     st.ghost['last_recent_arg'] = VBool(False)
     st.ghost['stored'] = ListS(INT).empty()        # uids this command has stored so far (APPEND)
     st.ghost['undone'] = ListS(INT).empty()        # uids handed to delete() by the command's own rollback
+    st.ghost['pairs'] = ListS(PairS).empty()       # C04: (source uid given to copy/move, uid it returned), in call order
+    st.ghost['last_dst'] = VInt(z3.IntVal(0))      # C04: the last uid copy/move returned in this command
 
 
 # ---- the abstract mailbox set
@@ -162,7 +172,22 @@ def _mbx(kind, ret=None, site=None):
             _effect(ex, frame, 'insert', dest, e.func.attr + '.destination')
             # stored recent exactly when no selection took the message
             ex.st.ghost['last_recent_arg'] = kw.get('recent', VBool(False))
-            return OptS(INT).fresh('dest_uid')
+            r = OptS(INT).fresh('dest_uid')
+            if ex.c.policy.prop == 'C04':
+                # LINK to the UID kernel (proved per backend in C04): the uid copy()/move() returns is the destination's
+                # new highest uid -- above everything assigned there before, in particular above the uid the previous
+                # call of this command returned (dict: result == new _max_uid, which never decreases; maildir: result ==
+                # the UID list's old next_uid, which never goes down and is advanced past it)
+                g = ex.st.ghost
+                none = _b(r.is_none())
+                val = _t(r.val())
+                ex.assume(z3.Or(none, val > _t(g['last_dst'])))
+                pairs = g['pairs']
+                g['pairs'] = VList(z3.If(none, pairs.n, pairs.n + 1),
+                                   z3.If(none, pairs.arr, z3.Store(pairs.arr, pairs.n, PairS._dt().mk(_t(args[0]), val))),
+                                   PairS)
+                g['last_dst'] = VInt(z3.If(none, _t(g['last_dst']), val))
+            return r
         if kind == 'append':
             if ex.c.policy.prop == 'C14' and ex.choose(2) == 1:
                 # ASSUMED: a storage call that raises has had no effect of its own
@@ -223,6 +248,11 @@ def _sm_interpret(ex, frame, e, base):
     es = TupleS(INT, Msg) if e.func.attr == 'get_all' else TupleS(INT, INT)
     lst = ListS(es).fresh('addressed')
     ex.assume(lst.n >= 0)
+    if ex.c.policy.prop == 'C04' and e.func.attr == 'get_uids':
+        # postcondition of SynchronizedMessages.get_uids (proved, contracts/selected.py, part of C04's contract list):
+        # the addressed uids come in strictly increasing order
+        i, j = z3.Int(fresh_name('i')), z3.Int(fresh_name('j'))
+        ex.assume(z3.ForAll([i, j], z3.Implies(z3.And(0 <= i, i < j, j < lst.n), _P1(lst.arr[i]) < _P1(lst.arr[j]))))
     return lst
 
 
@@ -323,9 +353,38 @@ def _rec_ctor(sort):
     return model
 
 
+def _strictly_increasing(lst, acc):
+    i = z3.Int(fresh_name('i'))
+    return z3.ForAll([i], z3.Implies(z3.And(0 <= i, i + 1 < lst.n), acc(lst.arr[i]) < acc(lst.arr[i + 1])))
+
+
+def _copyuid_ctor(ex, frame, e):
+    args, kw = ex.eval_args(e, frame)
+    if ex.c.policy.prop == 'C04':
+        base = f'{ex.c.name}/CopyUid'
+        uids, g = args[1], ex.st.ghost
+        ex.oblige(f'{base}/gets_exactly_the_pairs_source_uid_returned_uid_in_call_order', _b(uids.eq(g['pairs'])))
+        ex.oblige(f'{base}/sources_strictly_increasing', _strictly_increasing(uids, _P0))
+        ex.oblige(f'{base}/destinations_strictly_increasing', _strictly_increasing(uids, _P1))
+        ex.oblige(f'{base}/never_built_from_no_pairs', uids.n > 0)
+        dest = frame.env.get('dest')
+        ex.oblige(f'{base}/validity_is_the_destination_mailbox_s', _t(args[0]) == _t(ex.st.heap_get(dest, 'uid_validity')))
+    return RefS('CopyUid').fresh('copyuid')
+
+
+def _appenduid_ctor(ex, frame, e):
+    args, kw = ex.eval_args(e, frame)
+    if ex.c.policy.prop == 'C04':
+        base = f'{ex.c.name}/AppendUid'
+        ex.oblige(f'{base}/gets_exactly_the_uids_of_the_stored_messages_in_order', _b(args[1].eq(ex.st.ghost['stored'])))
+        mbx = frame.env.get('mbx')
+        ex.oblige(f'{base}/validity_is_the_mailbox_s', _t(args[0]) == _t(ex.st.heap_get(mbx, 'uid_validity')))
+    return RefS('AppendUid').fresh('appenduid')
+
+
 CALLS = {
     'SelectedMailbox': _sel_ctor, 'PermanentFlags': _rec_ctor(FL.PermS), 'SessionFlags': _rec_ctor(FL.SessS),
-    'AppendUid': _opaque('AppendUid'), 'CopyUid': _opaque('CopyUid'),
+    'AppendUid': _appenduid_ctor, 'CopyUid': _copyuid_ctor,
     'shield': lambda ex, frame, e: ex.eval(e.args[0], frame),
     'SequenceSet.all': lambda ex, frame, e: ex.st.new_record(SeqSetS, 'allset'),
     'frozenset': None,
@@ -355,11 +414,24 @@ def make(prop):
     loop0 = {0: Loop(ghost=['effects', 'synced', 'last_recent_arg'])}
     append_loop = {0: Loop(ghost=['effects', 'synced', 'last_recent_arg', 'stored'], invariant=[
         ('uids_are_exactly_what_was_stored', lambda s: s.uids == s.ghost('stored'))])}
+    copy_loop = loop0
+    if prop == 'C04':
+        def _pairs_inv(s):
+            u, g = s.uids, s.ghost('pairs')
+            j = z3.Int(fresh_name('j'))
+            prev = _t(s.seq.elem(_t(s.k) - 1)[1])       # the uid addressed in the previous iteration
+            return VBool(z3.And(
+                _b(u.eq(g)), _strictly_increasing(u, _P0), _strictly_increasing(u, _P1),
+                z3.ForAll([j], z3.Implies(z3.And(0 <= j, j < u.n), z3.And(
+                    _P1(u.arr[j]) <= _t(s.ghost('last_dst')),
+                    z3.And(_t(s.k) > 0, _P0(u.arr[j]) <= prev))))))
+        copy_loop = {0: Loop(ghost=['effects', 'synced', 'last_recent_arg', 'pairs', 'last_dst'], invariant=[
+            ('uids_are_the_pairs_so_far_both_columns_increasing', _pairs_inv)])}
     specs = [
         ('update_flags', dict(P, sequence_set=SeqSetS, flag_set=SetS(Flag), mode=FL.FlagOpS), loop0),
         ('expunge_mailbox', dict(P, uid_set=SeqSetS), {}),
-        ('copy_messages', dict(P, sequence_set=SeqSetS, mailbox=NameR), loop0),
-        ('move_messages', dict(P, sequence_set=SeqSetS, mailbox=NameR), loop0),
+        ('copy_messages', dict(P, sequence_set=SeqSetS, mailbox=NameR), copy_loop),
+        ('move_messages', dict(P, sequence_set=SeqSetS, mailbox=NameR), copy_loop),
         ('fetch_messages', dict(P, sequence_set=SeqSetS, set_seen=BOOL), loop0),
         ('append_messages', dict(self=SESSION, name=NameR, messages=ListS(AppendR), selected=SEL), append_loop),
         ('check_mailbox', dict(P, wait_on=NoneS(), housekeeping=BOOL), {}),
@@ -375,6 +447,8 @@ def make(prop):
             p2 = dict(params)
             p2['selected'] = NoneS()
             specs.append((name + '@nothing-selected', p2, loops))
+    if prop == 'C04':
+        specs = [x for x in specs if x[0].split('@')[0] in ('copy_messages', 'move_messages', 'append_messages')]
     out = []
     for name, params, loops in specs:
         variant = f'{prop}-effects'
